@@ -82,6 +82,9 @@ func scopesC08(thorough bool) []Scope {
 		// straddling the root centre at every level
 		{Name: "L-multi4-centre", GS: synthGS(3, 2, [2]int64{62, 62}), Spec: lat.Spec{Points: scale(lat.Window(2, 2, 2), 2), MaxK: k(4, 5), Valid: true}, IDSets: all4, Cfgs: keepCfgs},
 		{Name: "L-half-2-deep", GS: synthGS(3, 2, [2]int64{63, 63}), Spec: lat.Spec{Points: lat.Window(2, 2, 2), MaxK: k(4, 5), Valid: true}, IDSets: all4, Cfgs: keepCfgs},
+		// shell + one hole on the coarse lattice: the shell collapses at id 0 (and often 1) while the hole survives at id 3
+		{Name: "L-multi4-holes", GS: synthGS(3, 2, [2]int64{60, 60}), Spec: lat.Spec{Points: scale(lat.Window(2, 2, 2), 4), MaxK: 4, Valid: true, MaxHoles: 1, HoleMaxK: 3},
+			IDSets: [][]int{{0}, {1}, {2}, {3}, {0, 3}, {1, 3}, {2, 3}, {1, 2}, {0, 1, 2, 3}}, Cfgs: keepCfgs},
 		{Name: "C-walk-deep", GS: synthGS(2, 2, [2]int64{31, 31}), Spec: lat.Spec{Points: lat.Centres(2, 2), MinK: 1, MaxK: k(5, 7), Repeats: true}, IDSets: subsetsOf([]int{0, 1, 2}), Cfgs: keepCfgs},
 	}
 }
